@@ -31,7 +31,7 @@ def shards(tier, seed):
     if tier == "quick":
         grids = [[2], [3], [2, 2], [3, 2]]
     else:
-        grids = [[2], [3], [4], [2, 2], [3, 2], [3, 3], [4, 2], [2, 2, 2], [3, 2, 2]]
+        grids = [[2], [3], [4], [2, 2], [3, 2], [3, 3], [4, 2], [2, 2, 2]]
     for g in grids:
         out.append({"kind": "standard", "npt": g})
     for d in (1, 2):
@@ -40,7 +40,7 @@ def shards(tier, seed):
     out.append({"kind": "adaptive-seq", "d": 2, "npt": [4, 3]})
     out.append({"kind": "adaptive-seq", "d": 1, "npt": [5]})
     if tier == "thorough":
-        out.append({"kind": "adaptive-seq", "d": 2, "npt": [4, 4]})
+        out.append({"kind": "adaptive-seq", "d": 1, "npt": [7]})
     return out
 
 
